@@ -366,6 +366,39 @@ def check_aux(run, bitpacked):
             for n in want:
                 if not np.array_equal(out[n], full[n]):
                     run.violation('aux-subset-dependence', dict(field=n, requested=sorted(want)))
+    # unusual but valid containers for the packed words: list, strided view, read-only array; ppd as float
+    base = bitpacked.unpack_pids(packed, box=500.0, ppd=64, float_dtype=np.float32, **ALLF)
+    strided = np.zeros(2 * len(packed), dtype=np.uint64)
+    strided[::2] = packed
+    ro = packed.copy()
+    ro.flags.writeable = False
+    for label, arg, ppd in (('list', [int(x) for x in packed[:200]], 64), ('strided', strided[::2], 64), ('readonly', ro, 64), ('float-ppd', packed, 64.0), ('numpy-int-ppd', packed, np.int64(64))):
+        run.ev()
+        run.nt(('aux_container', label))
+        try:
+            out = bitpacked.unpack_pids(arg, box=500.0, ppd=ppd, float_dtype=np.float32, **ALLF)
+        except Exception as e:
+            run.violation('aux-container-rejected', dict(container=label, error=f'{type(e).__name__}: {e}'[:200]))
+            continue
+        n = len(arg)
+        if any(not np.array_equal(out[k], base[k][:n]) for k in out):
+            run.violation('aux-container-dependence', dict(container=label))
+    w3 = rng.integers(0, 1 << 32, (500, 3), dtype=np.uint64).astype(np.uint32).view(np.int32)
+    refp, refv = bitpacked.unpack_rvint(w3, 500.0)
+    big = np.zeros((500, 6), dtype=np.int32)
+    big[:, ::2] = w3
+    wro = w3.copy()
+    wro.flags.writeable = False
+    for label, arg in (('strided', big[:, ::2]), ('readonly', wro), ('fortran', np.asfortranarray(w3))):
+        run.ev()
+        run.nt(('rv_container', label))
+        try:
+            p, v = bitpacked.unpack_rvint(arg, 500.0)
+        except Exception as e:
+            run.count('rvint_container_rejected_' + label)  # a refusal is not a wrong result
+            continue
+        if not (np.array_equal(p, refp) and np.array_equal(v, refv)):
+            run.violation('rvint-container-dependence', dict(container=label))
     # box/ppd errors and defaults
     try:
         bitpacked.unpack_pids(packed[:3], lagr_pos=True)
